@@ -51,7 +51,7 @@ man = {
     }],
     "checks": checks,
     "not_applicable": na,
-    "notes": "See DESIGN.md. Known findings are in known_findings.json; seeded breaking changes in seeded/.",
+    "notes": "See DESIGN.md. Known findings are in known_findings/*.json; seeded breaking changes in seeded/.",
 }
 (VERIF / "MANIFEST.json").write_text(json.dumps(man, indent=1) + "\n")
 print(f"{len(checks)} checks, {len(na)} pending")
